@@ -619,3 +619,22 @@ INTERP = Stream('cli_interp', cli_harness, None, gen_interp, oracle=oracle_inter
                 nontrivial=lambda op, out: out.startswith('rc=0'), timeout=900)
 NPINDEP = Stream('cli_npindep', cli_harness, None, gen_npindep, oracle=oracle_npindep, kind='oracle',
                  nontrivial=lambda op, out: out.startswith('rc=0 rcp=0'), timeout=900)
+
+
+# ------------------------------------------------------------------ parallel adapt (C04)
+def gen_adapt_mpi(rng, tier, np):
+    ops = []
+    for op in gen_adapt(rng, tier, np):
+        if rng.random() < 0.4:
+            op += ' part=5'
+        ops.append(op)
+    return ops
+
+
+ADAPT_MPI = Stream('cli_adapt_mpi', cli_harness, None, gen_adapt_mpi, oracle=oracle_adapt, kind='oracle',
+                   np=[2, 3, 4], nontrivial=lambda op, out: out.startswith('rc=0'), timeout=1800,
+                   batches={'quick': 1, 'thorough': 2})
+ADAPT_MPI_WIDE = Stream('cli_adapt_mpi_wide', cli_harness, None, gen_adapt_mpi, oracle=oracle_adapt, kind='oracle',
+                        np=[5, 8], nontrivial=lambda op, out: out.startswith('rc=0'), timeout=1800,
+                        batches={'quick': 1, 'thorough': 2})
+ADAPT_MPI_WIDE.thorough_only = True
